@@ -427,8 +427,14 @@ func errTok(err error) string {
 	switch {
 	case err == nil:
 		return "nil"
-	case errors.Is(err, hsnet.ErrInjected):
+	case err == hsnet.ErrInjected:
 		return "e1"
+	case err == io.EOF:
+		return "e2"
+	case err == error(hsnet.ErrTimeout):
+		return "e3"
+	case err == error(hsnet.ErrTemporary):
+		return "e4"
 	case errors.Is(err, io.ErrShortWrite):
 		return "short"
 	}
@@ -461,11 +467,18 @@ func rc4Pair(seed uint64) (lv *live, keyA, keyB []byte) {
 // enc (keyB) 8+4+2+68 (MSE framing with empty pads and IA = the BitTorrent handshake)
 const posA, posB = 84, 82
 
-func cwCase(c *vhlib.Ctx, sizes []int, failAt int, failErr bool, seed int) {
+// fault kinds of the underlying conn.Write (the `e` of `fail=<p>:<e>`): 0 = short write
+// without error, 1 = a plain error, 2 = io.EOF, 3 = a net.Error with Timeout() (expired
+// write deadline), 4 = a net.Error with Temporary() only.  The fault is one-shot: the
+// connection accepts writes again afterwards (the caller may have extended the deadline).
+var faultErrs = []error{nil, hsnet.ErrInjected, io.EOF, hsnet.ErrTimeout, hsnet.ErrTemporary}
+var faultNames = []string{"short", "error", "eof", "timeout", "temporary"}
+
+func cwCase(c *vhlib.Ctx, sizes []int, failAt int, kind int, seed int) {
 	lv, keyA, _ := rc4Pair(uint64(seed) + 1)
 	fail := "-"
 	if failAt >= 0 {
-		fail = fmt.Sprintf("%d:%d", failAt, map[bool]int{false: 0, true: 1}[failErr])
+		fail = fmt.Sprintf("%d:%d", failAt, kind)
 	}
 	op := fmt.Sprintf("cw key=%s pos=%d seed=%d w=%s fail=%s", vhlib.Hex(keyA), posA, seed, sizesStr(sizes), fail)
 	c.NewCase()
@@ -476,30 +489,31 @@ func cwCase(c *vhlib.Ctx, sizes []int, failAt int, failErr bool, seed int) {
 	}
 	tap0 := len(lv.d.TapAB())
 	if failAt >= 0 {
-		var e error
-		if failErr {
-			e = hsnet.ErrInjected
-		}
-		lv.d.AB.FailWriteAt(tap0+failAt, e)
+		lv.d.AB.FailWriteAt(tap0+failAt, faultErrs[kind])
 	}
 	var res []string
 	off := 0
-	var plain []byte
+	var reported []byte // the bytes the Write calls reported as written, in order
+	total := 0
 	firstErr := -1
 	var latched error
 	bad := ""
 	for k, n := range sizes {
 		b := pattern(seed, off, n)
 		off += n
-		plain = append(plain, b...)
+		total += n
 		before := len(lv.d.TapAB())
 		m, err := lv.c.conn.Write(b)
 		after := len(lv.d.TapAB())
 		res = append(res, fmt.Sprintf("%d/%s", m, errTok(err)))
+		if m >= 0 && m <= n {
+			reported = append(reported, b[:m]...)
+		}
 		if firstErr >= 0 {
-			// latched: nothing more reaches the wire, the same error comes back
-			if m != 0 || err != latched || after != before {
-				bad = fmt.Sprintf("write %d after the failed write %d returned (%d, %v) and put %d bytes on the wire", k, firstErr, m, err, after-before)
+			// after a fault the script goes on writing: every later Write must fail with the
+			// latched error and send nothing (the keystream has run ahead of the wire)
+			if m != 0 || err == nil || err != latched || after != before {
+				bad = fmt.Sprintf("write %d after the failed write %d (%s) returned (%d, %v) and put %d bytes on the wire", k, firstErr, faultNames[kind], m, err, after-before)
 			}
 		} else if err != nil {
 			firstErr, latched = k, err
@@ -515,36 +529,34 @@ func cwCase(c *vhlib.Ctx, sizes []int, failAt int, failErr bool, seed int) {
 	c.Emit(op, fmt.Sprintf("%s wire=%s", strings.Join(res, " "), vhlib.Payload(wire)))
 	tag := "cw/ok"
 	if failAt >= 0 {
-		tag = "cw/short"
-		if failErr {
-			tag = "cw/error"
-		}
+		tag = "cw/" + faultNames[kind]
 		if firstErr < 0 {
 			tag = "cw/fail-beyond-end"
 		}
 	}
 	c.Count(tag, op, true)
-	// the wire is the RC4 encryption (independent implementation, specification's offset) of a
-	// prefix of the plaintext: the keystream never ran ahead of what was sent
+	// the receiver-side decryption (independent RC4, the specification's offset) of everything
+	// that reached the wire is exactly the concatenation of the bytes the Write calls reported
+	// as written: the keystream never ran ahead of what was subsequently sent
 	ci, _ := rc4.NewCipher(keyA)
 	skip := make([]byte, 1024+posA)
 	ci.XORKeyStream(skip, skip)
 	dec := hsnet.Crypt(ci, wire)
-	if len(dec) > len(plain) || !bytes.Equal(dec, plain[:len(dec)]) {
-		c.Violate("stream:wire-not-encryption-of-prefix", fmt.Sprintf("sizes %v fail %s", sizes, fail), []string{op})
+	if !bytes.Equal(dec, reported) {
+		c.Violate("stream:wire-not-encryption-of-prefix", fmt.Sprintf("sizes %v fail %s (%s): %d bytes on the wire, %d reported as written, receiver-side decryption differs", sizes, fail, faultNames[kind], len(wire), len(reported)), []string{op})
 	}
-	if firstErr < 0 && len(dec) != len(plain) {
+	if firstErr < 0 && len(dec) != total {
 		c.Violate("stream:bytes-missing-on-wire", fmt.Sprintf("sizes %v", sizes), []string{op})
 	}
 	if bad != "" {
 		c.Violate("stream:write-error-not-latched", bad, []string{op})
 	}
-	// and the far end reads exactly that prefix
+	// and the far end reads exactly that
 	lv.d.A.CloseWrite()
 	got, _ := io.ReadAll(lv.s.conn)
 	got = append(append([]byte(nil), lv.s.delivered...), got...)
-	if !bytes.Equal(got, plain[:len(dec)]) {
-		c.Violate("stream:receiver-differs", fmt.Sprintf("sizes %v fail %s: receiver got %d bytes", sizes, fail, len(got)), []string{op})
+	if !bytes.Equal(got, reported) {
+		c.Violate("stream:receiver-differs", fmt.Sprintf("sizes %v fail %s (%s): receiver got %d bytes, %d were reported as written", sizes, fail, faultNames[kind], len(got), len(reported)), []string{op})
 	}
 	lv.d.A.Close()
 	lv.d.B.Close()
@@ -690,12 +702,15 @@ func replayLine(c *vhlib.Ctx, line string) {
 		}
 	case "cw":
 		m := kv(ws[1:])
-		failAt, failErr := -1, false
+		failAt, kind := -1, 0
 		if f := m["fail"]; f != "-" && f != "" {
 			pe := strings.Split(f, ":")
-			failAt, failErr = atoi(pe[0]), pe[1] != "0"
+			failAt, kind = atoi(pe[0]), atoi(pe[1])
+			if kind < 0 || kind >= len(faultErrs) {
+				kind = 1
+			}
 		}
-		cwCase(c, decSizes(m["w"]), failAt, failErr, atoi(m["seed"]))
+		cwCase(c, decSizes(m["w"]), failAt, kind, atoi(m["seed"]))
 		return
 	case "cr":
 		m := kv(ws[1:])
@@ -755,7 +770,16 @@ func main() {
 	seed := 0
 	next := func() int { seed++; return seed + int(c.Seed)*1000 }
 	for _, n := range sizeMenu {
-		cwCase(c, []int{n}, -1, false, next())
+		cwCase(c, []int{n}, -1, 0, next())
+	}
+	// what is written after a fault: the script always continues with several more writes
+	more := func() []int {
+		k := 2 + r.Intn(3)
+		var t []int
+		for j := 0; j < k; j++ {
+			t = append(t, r.PickInt(1, 2, 100, 1000, 32768, 40000))
+		}
+		return t
 	}
 	ncw := c.N
 	for i := 0; i < ncw; i++ {
@@ -770,24 +794,40 @@ func main() {
 			sizes = append(sizes, n)
 			total += n
 		}
-		switch i % 3 {
-		case 0:
-			cwCase(c, sizes, -1, false, next())
-		default:
-			p := 0
-			if total > 0 {
-				p = r.Intn(total + 1)
-			}
-			if r.Chance(30) && total > 32768 {
-				p = r.PickInt(0, 1, 32767, 32768, 32769, total-1, total)
-			}
-			cwCase(c, sizes, p, i%3 == 1, next())
+		if i%6 == 0 {
+			cwCase(c, sizes, -1, 0, next())
+			continue
 		}
+		// a fault of every kind, with 0 … len bytes of the piece accepted: at the boundaries of
+		// the 32 KiB staging buffer and of the Writes, and at random offsets
+		p := 0
+		if total > 0 {
+			p = r.Intn(total + 1)
+		}
+		if r.Chance(40) {
+			var bounds []int
+			acc := 0
+			for _, n := range sizes {
+				for q := 32768; q < n; q += 32768 {
+					bounds = append(bounds, acc+q-1, acc+q, acc+q+1)
+				}
+				acc += n
+				bounds = append(bounds, acc-1, acc)
+			}
+			bounds = append(bounds, 0, 1)
+			p = bounds[r.Intn(len(bounds))]
+			if p < 0 {
+				p = 0
+			}
+		}
+		cwCase(c, append(sizes, more()...), p, i%5, next())
 	}
-	// a 3-write script with a fault at every position (thorough) or a sample (quick)
-	script := []int{5, 7, 3}
+	// a 3-write script followed by two more writes, a fault of every kind at every position
+	script := []int{5, 7, 3, 4, 6}
 	for p := 0; p <= 15; p++ {
-		cwCase(c, script, p, p%2 == 0, next())
+		for kind := range faultErrs {
+			cwCase(c, script, p, kind, next())
+		}
 	}
 	for i := 0; i < c.N/2; i++ {
 		total := r.PickInt(0, 1, 100, 32768, 70000, 100000)
